@@ -12,6 +12,8 @@ import GridVerif.Props.C13.GenInterp
 import GridVerif.Props.C13.GenAxes
 import GridVerif.Props.C13.GenCtor
 import GridVerif.Props.C13.GenTensor
+import GridVerif.Props.C13.VolumeDet
+import GridVerif.Props.C13.VolumeDetWeights
 
 #print axioms GridVerif.C13.coordinates_to_index_eq3
 #print axioms GridVerif.C13.coordinates_to_index_eq2
@@ -155,3 +157,7 @@ import GridVerif.Props.C13.GenTensor
 #print axioms GridVerif.C13.gen_tensor_points2
 #print axioms GridVerif.C13.gen_tensor1DInit_eq_model
 #print axioms GridVerif.C13.gen_tensorOrigin
+#print axioms GridVerif.C13.gen_volume_is_det3
+#print axioms GridVerif.C13.gen_volume_is_det2
+#print axioms GridVerif.C13.gen_volume_skew_witness
+#print axioms GridVerif.C13.weights_sum_det_gen3
